@@ -14,12 +14,87 @@
 import copy
 import itertools
 
-from hypothesis import strategies as st
+from hypothesis import strategies as _hst
 
 from vlib.ref.c08_symbols import ALL_TYPES, DATA_TYPES, LOGIC_TYPES, ITEM_PHASES, EXEC_ORDER, BUILTIN_TYPES, \
     REL_OPTIONS, STRICT_CONTEXTS, item_refs, value_refs, _program_refs
 
+
+
+class st:  # noqa: N801 - same spelling as the Hypothesis module it stands for
+    """Descriptors of the generators' choices.  They are interpreted either by Hypothesis (`programs()`: every
+    descriptor becomes the strategy of the same name) or by a byte string (`program_from_bytes()`: coverage-guided
+    campaigns), so that both searches share one generator."""
+
+    @staticmethod
+    def integers(a, b):
+        return ('int', a, b)
+
+    @staticmethod
+    def booleans():
+        return ('bool',)
+
+    @staticmethod
+    def sampled_from(seq):
+        return ('pick', list(seq))
+
+    @staticmethod
+    def lists(elem, min_size=0, max_size=3):
+        return ('list', elem, min_size, max_size)
+
+    @staticmethod
+    def permutations(seq):
+        return ('perm', list(seq))
+
+
+def _strategy(desc):
+    k = desc[0]
+    if k == 'int':
+        return _hst.integers(desc[1], desc[2])
+    if k == 'bool':
+        return _hst.booleans()
+    if k == 'pick':
+        return _hst.sampled_from(desc[1])
+    if k == 'list':
+        return _hst.lists(_strategy(desc[1]), min_size=desc[2], max_size=desc[3])
+    if k == 'perm':
+        return _hst.permutations(desc[1])
+    raise ValueError(desc)
+
+
+class ByteDraw:
+    """Interprets the descriptors with the bytes of a string (0 when the string is used up: the first choice)."""
+
+    def __init__(self, data: bytes):
+        self.data = data
+        self.pos = 0
+
+    def _byte(self) -> int:
+        b = self.data[self.pos] if self.pos < len(self.data) else 0
+        self.pos += 1
+        return b
+
+    def __call__(self, desc):
+        k = desc[0]
+        if k == 'int':
+            return desc[1] + self._byte() % (desc[2] - desc[1] + 1)
+        if k == 'bool':
+            return bool(self._byte() & 1)
+        if k == 'pick':
+            return desc[1][self._byte() % len(desc[1])]
+        if k == 'list':
+            return [self(desc[1]) for _ in range(desc[2] + self._byte() % (desc[3] - desc[2] + 1))]
+        if k == 'perm':
+            rest = list(desc[1])
+            out = []
+            while rest:
+                out.append(rest.pop(self._byte() % len(rest)))
+            return out
+        raise ValueError(desc)
+
+
 NAMES = ['A', 'B', 'C', 'D', 'E', 'F', 'G']
+MORE_NAMES = NAMES + ['H', 'I', 'J', 'K']  # thorough tier (handed out in this order: the latest is the last one)
 UNDEFINED = 'U'
 # literal pieces of strings: harmless in every context they can reach (file names, regex, INTEGER = Python syntax
 # without parentheses, program arguments); near misses of the reference syntax included.
@@ -228,6 +303,8 @@ def _ctx_table():
     c['prog-stdin-heredoc'] = lambda x: setup({'k': 'run', 'p': _probe('p2', [S('a')], stdin=ts_str('d', R(x)))})
     c['env-ts-whole'] = lambda x: setup({'k': 'env', 's': {'ref': x, 't': None}}, {'k': 'run', 'p': _probe('p2', [])})
     c['env-str'] = lambda x: setup({'k': 'env', 's': ts_str('s', 'v', R(x))}, {'k': 'run', 'p': _probe('p2', [])})
+    c['env-name'] = lambda x: setup({'k': 'env', 's': ts_str('s', 'v'), 'name': S('n', R(x), q='s')},
+                                    {'k': 'run', 'p': _probe('p2', [])})
     c['stdin-ts'] = lambda x: ([{'k': 'stdin', 's': {'ref': x, 't': None}}], 'setup', _probe('act', []))
     c['stdin-str'] = lambda x: ([{'k': 'stdin', 's': ts_str('n', 'v', R(x))}], 'setup', _probe('act', [S('a')]))
     c['timeout-int'] = lambda x: setup({'k': 'timeout', 'i': S('100+', R(x))})
@@ -257,6 +334,35 @@ def _ctx_table():
     c['symref-stdin'] = lambda x: setup(pg, {'k': 'run', 'p': dict(symref('PG'), **{'in': {'ref': x, 't': None}})})
     c['symref-stdin-str'] = lambda x: setup(pg, {'k': 'run', 'p': dict(symref('PG'), **{'in': ts_str('s', R(x))})})
     c['symref-tt'] = lambda x: setup(pg, {'k': 'run', 'p': dict(symref('PG'), t=_ref(x))})
+    # the PATH argument of instructions (`file`, `dir`: "Accepted relativities: act, tmp, cd"; `exists`)
+    def at(kind, p):
+        it = {'k': kind, 'p': p}
+        if kind == 'fileat':
+            it['s'] = ts_str('s', 'txt')
+        return it
+
+    for kind, nm in [('fileat', 'file-dst'), ('dirat', 'dir-dst'), ('nexists', 'exists-path')]:
+        ph_ = assert_ if kind == 'nexists' else setup
+        c[nm + '-rel'] = (lambda k_, f_: lambda x: f_(at(k_, {'rel': R(x), 'name': S('n')})))(kind, ph_)
+        c[nm + '-pfx'] = (lambda k_, f_: lambda x: f_(at(k_, {'rel': None, 'name': S(R(x), '/n')})))(kind, ph_)
+        c[nm + '-comp'] = (lambda k_, f_: lambda x: f_(at(k_, {'rel': 'tmp', 'name': S('n/', R(x))})))(kind, ph_)
+    # -contents-of SOURCE-FILE-PATH ("default is home directory"); HOME_PATH_CONTEXTS: X0 is a path in the home dir
+    def src(p, tt=None):
+        return {'c': 'contents-of', 'p': p, 't': tt}
+
+    c['contents-of-rel'] = lambda x: setup({'k': 'file', 's': src({'rel': R(x), 'name': S('dat.txt')})})
+    c['contents-of-pfx'] = lambda x: setup({'k': 'file', 's': src({'rel': None, 'name': S(R(x), '/dat.txt')})})
+    c['contents-of-comp'] = lambda x: setup({'k': 'file', 's': src({'rel': None, 'name': S('dat', R(x), '.txt')},
+                                                                   tt={'lit': 'upper'})})
+    c['contents-of-in-ts-def'] = lambda x: setup(_def('text-source', 'Z', src({'rel': R(x), 'name': S('z.txt')})))
+    c['contents-of-tt'] = lambda x: setup({'k': 'file', 's': src({'rel': 'home', 'name': S('dat.txt')}, tt=_ref(x))})
+    # exit-code / stdout -from PROGRAM (assert phase)
+    c['from-prog'] = lambda x: assert_({'k': 'from', 'ch': 'exit-code', 'p': symref(x, S('f'))})
+    c['from-arg'] = lambda x: assert_({'k': 'from', 'ch': 'stdout', 'p': _probe('p2', [S('a'), S(R(x))])})
+    c['from-arg-frag'] = lambda x: assert_({'k': 'from', 'ch': 'exit-code', 'p': _probe('p2', [S('a ', R(x), q='s')])})
+    c['from-stdin'] = lambda x: assert_({'k': 'from', 'ch': 'exit-code',
+                                         'p': _probe('p2', [], stdin={'ref': x, 't': None})})
+    c['from-tt'] = lambda x: assert_({'k': 'from', 'ch': 'stdout', 'p': _probe('p2', [], tt=_ref(x))})
     c['act-file-actor-arg'] = lambda x: ([], 'setup', dict(_probe('act', [S(R(x)), S('z')]), actor='file'))
     c['act-file-actor-frag'] = lambda x: ([], 'setup', dict(_probe('act', [S('a', R(x), q='s')]), actor='file'))
     c['act-symref-arg'] = lambda x: ([pg], 'setup', symref('PG', S(R(x)), S('z')))
@@ -266,7 +372,12 @@ def _ctx_table():
 
 
 CONTEXTS = _ctx_table()
+HOME_PATH_CONTEXTS = ['contents-of-rel', 'contents-of-pfx', 'contents-of-in-ts-def']
 CHAINS = ['0', 's1', 's2', 't1', 't2', 'm1', 'm2']  # m: strings with two references, the second one leads to X0
+DEEP_CHAINS = ['s3', 't3', 'm3', 't4']  # thorough: every context; quick: the contexts of DEEP_QUICK_CONTEXTS
+DEEP_QUICK_CONTEXTS = ['contents-of-rel', 'contents-of-comp', 'env-name', 'file-dst-rel', 'file-dst-pfx', 'dir-dst-comp', 'exists-path-pfx', 'pathpfx', 'pathcomp', 'pathcomp-relsym', 'int-def', 'int-used', 'timeout-int', 'fname-fs',
+                       'fname-fc', 'rel', 'str-soft', 'list-elem', 'arg-elem', 'act-arg', 'file-ts-whole',
+                       'run-prog', 'def-text-matcher-plain', 'file-tt-plain', 'dir-use-plain', 'replace-regex-used']
 
 
 def matrix_case(ctx, t, chain, late=False):
@@ -275,7 +386,10 @@ def matrix_case(ctx, t, chain, late=False):
     items = {p: [] for p in ITEM_PHASES}
     if chain[0] == 'm':
         items['setup'].append(_def('string', 'S0', S('s')))
-    items['setup'].append(_def(t, 'X0', literal_value(t)))
+    x0 = literal_value(t)
+    if t == 'path' and ctx in HOME_PATH_CONTEXTS:
+        x0 = {'rel': 'home', 'name': S('hd1')}
+    items['setup'].append(_def(t, 'X0', x0))
     last = 'X0'
     if chain != '0':
         mode, n = chain[0], int(chain[1])
@@ -302,7 +416,7 @@ def matrix_case(ctx, t, chain, late=False):
 def matrix_cases(tier):
     for ctx in sorted(CONTEXTS):
         for t in ALL_TYPES:
-            for chain in CHAINS:
+            for chain in CHAINS + (DEEP_CHAINS if (tier == 'thorough' or ctx in DEEP_QUICK_CONTEXTS) else []):
                 if chain[0] in 'sm' and t not in DATA_TYPES:
                     continue  # a string cannot be built from a logic value: that is cell (str-soft, t) itself
                 yield matrix_case(ctx, t, chain)
@@ -325,6 +439,7 @@ def _orders(tier):
 def scope_cases(tier):
     orders = _orders(tier)
     filler = _def('string', 'FILL', S('f'))
+    filler2 = _def('string', 'FILL2', S('g'))
     n = 0
     for def_phase in ITEM_PHASES:
         for use_phase in EXEC_ORDER:
@@ -379,6 +494,93 @@ def scope_cases(tier):
                     yield {'order': order, 'cuts': {def_phase: [1]}, 'act': act, 'items': items,
                            'tag': 'split/%s/%s/%s/%s' % (def_phase, use_phase, use_kind,
                                                          'def-in-first-piece' if def_first else 'def-in-last-piece')}
+    # included files: "The effect of including a file is equivalent to having the contents of the included file in the
+    # including file" - the definition and/or the use live in an included file (plain, with its own phase header,
+    # through a nested inclusion in another directory, or in a file that also holds the next phase of the main file)
+    inc_orders = [CANONICAL_ORDER, CANONICAL_ORDER[::-1], ['assert', 'setup', 'cleanup', 'act', 'before-assert']]
+    for def_phase in ITEM_PHASES:
+        for use_phase in EXEC_ORDER:
+            same = def_phase == use_phase
+            for def_first in ([True, False] if same else [True]):
+                for mode in ['plain', 'header', 'nested', 'absorb']:
+                    for target in ['def', 'use', 'both']:
+                        for order in (inc_orders if tier == 'thorough' else inc_orders[:2]):
+                            items = {p: [] for p in ITEM_PHASES}
+                            d = _def('string', 'X', S('i'))
+                            act = None
+                            use = None
+                            if use_phase == 'act':
+                                act = _probe('act', [S('a', R('X'))])
+                            else:
+                                use = _def('list', 'Y', [S(R('X')), S('t')]) if mode == 'header' else _show('X')
+                            if same:
+                                items[def_phase] = [d, filler, use] if def_first else [use, filler, d]
+                            else:
+                                items[def_phase] = [filler, d]
+                                if use is not None:
+                                    items[use_phase] = [use, filler2]
+                            cands = [p for p in order if p != 'act']
+                            inc = []
+                            if target in ('def', 'both'):
+                                inc.append({'p': cands.index(def_phase), 'a': items[def_phase].index(d), 'b': 1,
+                                            'm': mode})
+                            if target in ('use', 'both'):
+                                if use is not None and not (same and target == 'both'):
+                                    inc.append({'p': cands.index(use_phase), 'a': items[use_phase].index(use), 'b': 1,
+                                                'm': mode})
+                                elif use is None and order.index('act') > 0:
+                                    # the act phase itself is written in an included file
+                                    prev = order[order.index('act') - 1]
+                                    if not any(sp['p'] == cands.index(prev) for sp in inc):
+                                        inc.append({'p': cands.index(prev), 'a': 9, 'b': 0, 'm': 'absorb'})
+                            yield {'order': order, 'act': act, 'items': items, 'inc': inc,
+                                   'tag': 'included/%s/%s/%s/%s' % (def_phase, use_phase, mode, target)}
+    # contents of the suite that the case belongs to: "included before the contents of the phase of each test case"
+    # ([cleanup]: "included after")
+    def place(ph, in_suite_items, in_case_items):
+        return (in_case_items + in_suite_items) if ph == 'cleanup' else (in_suite_items + in_case_items)
+
+    for def_phase in ITEM_PHASES:
+        for use_phase in EXEC_ORDER:
+            same = def_phase == use_phase
+            for where in ['def-in-suite', 'use-in-suite', 'both-in-suite']:
+                if use_phase == 'act' and where != 'def-in-suite':
+                    continue
+                for order in inc_orders[:2]:
+                    for def_first in ([True, False] if (same and where == 'both-in-suite') else [True]):
+                        items = {p: [] for p in ITEM_PHASES}
+                        d = _def('string', 'X', S('su'))
+                        act = None
+                        use = None
+                        if use_phase == 'act':
+                            act = _probe('act', [S('a', R('X'))])
+                        else:
+                            use = _show('X')
+                        suite = {}
+                        if same:
+                            if where == 'def-in-suite':
+                                items[def_phase] = place(def_phase, [d], [use])
+                                suite[def_phase] = 1
+                            elif where == 'use-in-suite':
+                                items[def_phase] = place(def_phase, [use], [d])
+                                suite[def_phase] = 1
+                            else:
+                                items[def_phase] = place(def_phase, [d, use] if def_first else [use, d], [filler])
+                                suite[def_phase] = 2
+                        else:
+                            in_suite_d = where in ('def-in-suite', 'both-in-suite')
+                            items[def_phase] = place(def_phase, [d] if in_suite_d else [filler],
+                                                     [filler] if in_suite_d else [d])
+                            if in_suite_d:
+                                suite[def_phase] = 1
+                            if use is not None:
+                                in_suite_u = where in ('use-in-suite', 'both-in-suite')
+                                items[use_phase] = place(use_phase, [use] if in_suite_u else [filler2],
+                                                         [filler2] if in_suite_u else [use])
+                                if in_suite_u:
+                                    suite[use_phase] = 1
+                        yield {'order': order, 'act': act, 'items': items, 'suite': suite,
+                               'tag': 'suite/%s/%s/%s' % (def_phase, use_phase, where)}
     # duplicates: same name twice (same or different type), anywhere
     for p1, p2 in itertools.combinations_with_replacement(ITEM_PHASES, 2):
         for t2 in ['string', 'list', 'line-matcher']:
@@ -400,8 +602,53 @@ def scope_cases(tier):
         for ph in ITEM_PHASES:
             items = {p: [] for p in ITEM_PHASES}
             items[ph].append(_show(b))
+            # ... also inside a REGEX that is used (KF-C08-1: a home directory path there was an INTERNAL_ERROR)
+            items[ph].append({'k': 'file', 's': {'c': 'str', 's': S('<', R(b), '>', q='s'),
+                                                 't': {'c': 'replace', 'r': S(R(b)), 's': S('R')}}})
+            items['assert'].append({'k': 'assert', 't': 'text-matcher', 'e': {'c': 'matches', 'r': S('^', R(b))}})
             items[ph].append(_def('path', 'Q', {'rel': R(b), 'name': S('n')}))
             yield {'order': CANONICAL_ORDER, 'act': None, 'items': items, 'tag': 'builtin-ref/%s/%s' % (b, ph)}
+
+
+# ------------------------------------------------------------------------------------------------
+# values: every pair of base values (empty string, strings, empty list, lists with empty / spaced elements, path)
+# combined by bare list elements, by fragments of a list element and by a string; then once more
+# ------------------------------------------------------------------------------------------------
+VALUE_BASES = [
+    ('SE', 'string', S('', q='s')),
+    ('S1', 'string', S('a')),
+    ('S2', 'string', S('x  y ', q='s')),
+    ('LE', 'list', []),
+    ('L1', 'list', [S('b')]),
+    ('L3', 'list', [S('c'), S('u v', q='s'), S('', q='s')]),
+    ('PT', 'path', {'rel': 'tmp', 'name': S('d/e')}),
+    ('PA', 'path', {'rel': R('EXACTLY_ACT'), 'name': S('', q='s')}),
+]
+
+
+def values_cases(tier):
+    for (nx, tx, vx), (ny, ty, vy) in itertools.product(VALUE_BASES, VALUE_BASES):
+        for phase2 in (['setup', 'cleanup'] if tier == 'thorough' else ['setup' if (len(nx) + len(ny)) % 2 else 'assert']):
+            items = {p: [] for p in ITEM_PHASES}
+            items['setup'].append(_def(tx, nx, vx))
+            if ny != nx:
+                items['setup'].append(_def(ty, ny, vy))
+            items['setup'] += [
+                _def('list', 'CL', [S(R(nx)), S('m'), S(R(ny))]),  # elements spliced
+                _def('list', 'CF', [S('<', R(nx), '|', R(ny), '>', q='s'), S(R(nx), R(ny))]),  # inside one element
+                _def('string', 'CS', S(R(nx), ',', R(ny), q='s')),
+            ]
+            items[phase2] += [
+                _def('list', 'DL', [S(R('CL')), S(R('CF')), S(R('CS')), S('[', R('CL'), ']', q='s')]),
+                _def('string', 'DS', S(R('CL'), ';', R('CF'), ';', R('CS'), q='s')),
+                {'k': 'run', 'p': _probe('p1', [S(R('DL')), S(R('DS'), q='s'), S(R('DS'))],
+                                         stdin={'c': 'str', 's': S(R('DL'), q='s'), 't': None})},
+                {'k': 'file', 's': {'ref': 'DS', 't': None}},
+                {'k': 'env', 's': {'c': 'str', 's': S(R('DL'), '=', R('CS'), q='s'), 't': None}},
+                {'k': 'run', 'p': _probe('p2', [S(R('CL'))]), 'bare': True},
+            ]
+            act = _probe('act', [S(R('CL')), S(R('CF'))]) if phase2 != 'setup' else None
+            yield {'order': CANONICAL_ORDER, 'act': act, 'items': items, 'tag': 'values/%s/%s' % (nx, ny)}
 
 
 # ------------------------------------------------------------------------------------------------
@@ -412,9 +659,11 @@ class _Env:
 
     def __init__(self):
         self.sym = {}  # name -> {'t': type, 'pure': bool (built from strings only), 'int': bool}
-        for n, t in [('TAB', 'string'), ('NEW_LINE', 'string'), ('EXACTLY_TMP', 'path'), ('EXACTLY_ACT', 'path'),
-                     ('EXACTLY_HOME', 'path')]:
+        for n, t in sorted(BUILTIN_TYPES.items()):
             self.sym[n] = {'t': t, 'pure': True, 'int': False, 'builtin': True}
+        for n, r in (('EXACTLY_ACT', 'act'), ('EXACTLY_ACT_HOME', 'act-home'), ('EXACTLY_HOME', 'home'),
+                     ('EXACTLY_RESULT', 'result'), ('EXACTLY_TMP', 'tmp')):
+            self.sym[n]['root'] = r
 
     def names(self, types, pure=False, intish=False, user_only=False):
         return sorted(n for n, e in self.sym.items()
@@ -427,6 +676,8 @@ def _pick(draw, env, types, p=0.6, pure=False, intish=False, user_only=False):
     """A defined symbol with a type the context accepts (user symbols preferred: they make chains), or None."""
     user = env.names(types, pure=pure, intish=intish, user_only=True)
     if user and draw(st.integers(0, 99)) < min(95, int(p * 100) + 20):
+        if draw(st.integers(0, 2)) == 0:
+            return user[-1]  # the one defined last (names are handed out in alphabetic order): chains get longer
         return draw(st.sampled_from(user))
     if not user_only:
         builtin = [n for n in env.names(types, pure=pure, intish=intish) if n not in user]
@@ -521,6 +772,45 @@ def _g_path(draw, env):
     return {'rel': None, 'name': S(*tail(draw(st.sampled_from(LIT_WORD))))}, used
 
 
+_WRITE_ROOTS = ('act', 'tmp', 'cd')
+
+
+def _root_of(env, p):
+    """The relativity of a generated path (what the generator needs to know to choose a destination)"""
+    rel = p['rel']
+    if isinstance(rel, dict):
+        return env.sym.get(rel['ref'], {}).get('root')
+    if rel is not None:
+        return rel
+    first = p['name']['f'][0] if p['name']['f'] else ''
+    if not isinstance(first, str) and env.sym.get(first['ref'], {}).get('t') == 'path':
+        return env.sym[first['ref']].get('root')
+    return 'cd'
+
+
+def _g_argpath(draw, env, write=True):
+    """The PATH argument of `file` / `dir` (write: a destination inside the sandbox, whatever the strings are: the
+    FILE-NAME begins with a literal word, or the path is relative to a path symbol) or of `exists !`."""
+    used = []
+    frags = [draw(st.sampled_from(LIT_WORD))]
+    y = _pick(draw, env, ['string'], 0.4, pure=True, user_only=True)
+    if y is not None:
+        frags += ['/', R(y)]
+        used.append(y)
+    name = S(*frags, q=draw(st.sampled_from(['n', 's'])))
+    shape = draw(st.sampled_from(['relsym', 'relsym', 'opt', 'pfx']))
+    paths = [n for n in env.names(['path']) if not write or env.sym[n].get('root') in _WRITE_ROOTS]
+    if shape in ('relsym', 'pfx') and paths:
+        user = [n for n in paths if not env.sym[n].get('builtin')]
+        x = draw(st.sampled_from(user if (user and draw(st.integers(0, 3)) > 0) else paths))
+        used.append(x)
+        if shape == 'pfx':
+            return {'rel': None, 'name': S(R(x), '/', *frags, q=name['q'])}, used
+        return {'rel': R(x), 'name': name}, used
+    rels = list(_WRITE_ROOTS) if write else ['home', 'act-home', 'act', 'tmp', 'cd']
+    return {'rel': draw(st.sampled_from(rels)), 'name': name}, used
+
+
 def _g_ts(draw, env, depth, eol=False):
     """eol: the text source is the last thing of its instruction line(s): RICH-STRING forms and -stdout-from PROGRAM
     (PGM-AND-ARGS runs to END-OF-LINE) can be used."""
@@ -529,7 +819,26 @@ def _g_ts(draw, env, depth, eol=False):
         p, u = _g_program(draw, env, depth + 1, allow_extras=depth == 0, nested=True)
         return {'c': 'pgm', 'p': p, 't': None}, u
     x = _pick(draw, env, ['text-source', 'string'], 0.45)
-    if x is not None:
+    if draw(st.integers(0, 11)) == 0:
+        # -contents-of a file in the home directory (the harness makes the files)
+        homes = [n for n in env.names(['path']) if env.sym[n].get('root') in ('home', 'act-home')]
+        frags = [draw(st.sampled_from(['dat', 'h/dat', 'e.f']))]
+        y = _pick(draw, env, ['string'], 0.4, pure=True, user_only=True)
+        if y is not None:
+            frags += ['_', R(y)]
+            used.append(y)
+        shape = draw(st.sampled_from(['relsym', 'pfx', 'opt', 'default']))
+        if shape in ('relsym', 'pfx') and homes:
+            hx = draw(st.sampled_from(homes))
+            used.append(hx)
+            pth = ({'rel': R(hx), 'name': S(*frags)} if shape == 'relsym' else
+                   {'rel': None, 'name': S(R(hx), '/', *frags)})
+        elif shape == 'opt':
+            pth = {'rel': draw(st.sampled_from(['home', 'act-home'])), 'name': S(*frags)}
+        else:
+            pth = {'rel': None, 'name': S(*frags)}
+        ts = {'c': 'contents-of', 'p': pth, 't': None}
+    elif x is not None:
         used.append(x)
         ts = {'ref': x, 't': None}
     else:
@@ -765,8 +1074,18 @@ FAULTS = [None, None, None, None, None, None, None, 'def-later', 'def-later', 'u
 IMPURE_NAME = 'L'
 
 
-@st.composite
-def programs(draw):
+@_hst.composite
+def programs(draw, max_items=8, names=tuple(NAMES)):
+    return build_program(lambda desc: draw(_strategy(desc)), max_items, names)
+
+
+def program_from_bytes(data: bytes, max_items=8, names=tuple(NAMES)):
+    """The same generator, driven by a byte string (structural decoding: bytes select among the generator's
+    alternatives, nothing of the bytes is ever copied into the case)."""
+    return build_program(ByteDraw(data), max_items, names)
+
+
+def build_program(draw, max_items, names):
     # drawn first: the distribution of late draws of a large example is skewed towards the first alternative
     fault = draw(st.sampled_from(FAULTS))
     order = list(draw(st.permutations(EXEC_ORDER)))
@@ -775,11 +1094,22 @@ def programs(draw):
         # a phase may be written in several pieces: its contents are the pieces in file order
         for ph in draw(st.lists(st.sampled_from(ITEM_PHASES), min_size=1, max_size=2)):
             order.insert(draw(st.integers(0, len(order))), ph)
-            cuts.setdefault(ph, []).append(draw(st.integers(0, 5)))
+            cuts.setdefault(ph, []).append(draw(st.integers(0, max(5, max_items - 3))))
+    inc = []
+    if draw(st.integers(0, 3)) == 0:
+        # parts of the case live in included files
+        for _ in range(draw(st.integers(1, 2))):
+            inc.append({'p': draw(st.integers(0, 7)), 'a': draw(st.integers(0, 2)), 'b': draw(st.integers(0, 3)),
+                        'm': draw(st.sampled_from(['plain', 'plain', 'header', 'nested', 'absorb']))})
+    suite = {}
+    if draw(st.integers(0, 5)) == 0:
+        # the leading items of some phases come from the suite the case belongs to
+        for ph in draw(st.lists(st.sampled_from(ITEM_PHASES), min_size=1, max_size=2)):
+            suite[ph] = draw(st.integers(1, 2))
     env = _Env()
     items = {p: [] for p in ITEM_PHASES}
-    n_items = draw(st.integers(2, 8))
-    free = list(NAMES)
+    n_items = draw(st.integers(2, max_items))
+    free = list(names)
     phase_i = 0
     act = None
     act_done = False
@@ -804,8 +1134,9 @@ def programs(draw):
             act = make_act()
             act_done = True
         phase = ITEM_PHASES[phase_i]
-        n_user = len(NAMES) - len(free)
-        kind = draw(st.sampled_from(['def', 'def', 'def', 'use', 'use'] if n_user >= 2 else ['def'] * 5 + ['use']))
+        n_user = len(names) - len(free)
+        kind = draw(st.sampled_from((['def', 'def', 'use', 'use', 'use'] if phase == 'assert' else
+                                     ['def', 'def', 'def', 'use', 'use']) if n_user >= 2 else ['def'] * 5 + ['use']))
         if kind == 'def' and free:
             t = draw(st.sampled_from(_TYPE_WEIGHTS))
             name = free.pop(0)
@@ -824,18 +1155,25 @@ def programs(draw):
                 intish = (all(l in ('0', '1', '7', '12') for l in lits) and all(env.sym[r]['int'] for r in refs)
                           and len(lits) + len(refs) == 1)
             env.sym[name] = {'t': t, 'pure': pure if t == 'string' else False, 'int': intish}
+            if t == 'path':
+                env.sym[name]['root'] = _root_of(env, v)
         else:
-            kinds = ['file', 'file', 'file', 'dir', 'env', 'timeout']
+            kinds = ['file', 'file', 'file', 'dir', 'env', 'timeout', 'fileat', 'dirat']
             if n_run < 2:
                 kinds += ['run', 'run']
             if phase == 'assert':
-                kinds += ['assert', 'assert', 'assert']
+                kinds += ['assert', 'assert', 'assert', 'assert', 'nexists', 'nexists', 'from', 'from', 'from']
             if phase == 'setup' and not any(it['k'] == 'stdin' for it in items['setup']):
-                kinds.append('stdin')
+                kinds += ['stdin', 'stdin']
             uk = draw(st.sampled_from(kinds))
             if uk == 'env':
                 ts, _u = _g_ts(draw, env, 0, eol=True)
-                items[phase].append({'k': 'env', 's': ts})
+                it = {'k': 'env', 's': ts}
+                if draw(st.integers(0, 4)) == 0:
+                    y = _pick(draw, env, ['string'], 0.9, pure=True, user_only=True)
+                    if y is not None:
+                        it['name'] = S('v', R(y), q='s')
+                items[phase].append(it)
             elif uk == 'stdin':
                 ts, _u = _g_ts(draw, env, 0, eol=True)
                 items[phase].append({'k': 'stdin', 's': ts})
@@ -847,6 +1185,19 @@ def programs(draw):
             elif uk == 'file':
                 ts, _u = _g_ts(draw, env, 0, eol=True)
                 items[phase].append({'k': 'file', 's': ts})
+            elif uk == 'fileat':
+                pth, _u = _g_argpath(draw, env)
+                ts, _u = _g_ts(draw, env, 0, eol=True)
+                items[phase].append({'k': 'fileat', 'p': pth, 's': ts})
+            elif uk == 'dirat':
+                pth, _u = _g_argpath(draw, env)
+                items[phase].append({'k': 'dirat', 'p': pth})
+            elif uk == 'from':
+                p, _u = _g_program(draw, env, 0)
+                items[phase].append({'k': 'from', 'ch': draw(st.sampled_from(['exit-code', 'stdout'])), 'p': p})
+            elif uk == 'nexists':
+                pth, _u = _g_argpath(draw, env, write=False)
+                items[phase].append({'k': 'nexists', 'p': pth})
             elif uk == 'dir':
                 fs, _u = _g_fs(draw, env, 0)
                 items[phase].append({'k': 'dir', 's': fs})
@@ -866,6 +1217,10 @@ def programs(draw):
     case = {'order': list(order), 'act': act, 'items': items}
     if cuts:
         case['cuts'] = {ph: sorted(c) for ph, c in sorted(cuts.items())}
+    if inc:
+        case['inc'] = inc
+    if suite:
+        case['suite'] = {ph: n for ph, n in sorted(suite.items())}
     if fault is not None:
         case = _apply_fault(draw, case, fault, env)
     return case
@@ -895,7 +1250,7 @@ def _apply_fault(draw, case, fault, env):
         else:
             tp = draw(st.integers(0, 3))
         target = ITEM_PHASES[tp]
-        if it['k'] == 'assert' and target != 'assert':
+        if it['k'] in ('assert', 'nexists', 'from') and target != 'assert':
             target = 'assert'
         if it['k'] == 'stdin':
             target = 'setup'  # the instruction exists in [setup] only
@@ -958,11 +1313,13 @@ def _apply_fault(draw, case, fault, env):
             if not cands:
                 return case
             cands = [draw(st.sampled_from(cands))]
-            use = draw(st.sampled_from(['pathcomp', 'fname', 'int']))
+            use = draw(st.sampled_from(['pathcomp', 'fname', 'int', 'envname']))
             if use == 'pathcomp':
                 it = _def('path', IMPURE_NAME + '2', {'rel': 'tmp', 'name': S('n/', R(cands[0]))})
             elif use == 'fname':
                 it = {'k': 'dir', 's': {'c': 'set', 'e': [{'k': 'file', 'n': S('f1', R(cands[0])), 's': None}]}}
+            elif use == 'envname':
+                it = {'k': 'env', 's': {'c': 'str', 's': S('v'), 't': None}, 'name': S('n', R(cands[0]), q='s')}
             else:
                 it = {'k': 'timeout', 'i': S('100+', R(cands[0]))}
             items['cleanup'].append(it)
